@@ -1,5 +1,14 @@
 // hola mode: "n (w h x y)*n m (u v)*m opts" per line (integers; nodes 1-based in edges); opts bits: 0 useACAforLinks, 1 do_near_align, 2 preferConvexTrees
-static int holaMode(const char *inFile, const char *outFile, long skip)
+// the main pipeline phases whose logged state is recorded for the first `phaseCases` runs (sub-steps of a phase are not)
+static bool holaMainPhase(const std::string &nm)
+{
+    static const char *keys[] = {"_OP_destress_core", "_core_ortho_hub", "_EOP_destress_core", "_core_link_config_", "_core_leafless_ortho_route", "_planar_graph_P",
+                                 "_P_EOP_destress", "_P_with_trees", "_P_nbr_destress", "_P_near_alignments", "_P_rotation", "_P_translation"};
+    for (const char *k : keys) { size_t p = nm.find(k); if (p != std::string::npos && p == 2) return true; }
+    return false;
+}
+
+static int holaMode(const char *inFile, const char *outFile, long skip, long phaseCases)
 {
     std::ifstream in(inFile);
     vt::Out out(outFile);
@@ -38,6 +47,33 @@ static int holaMode(const char *inFile, const char *outFile, long skip)
                     while (std::getline(cs, ln)) { std::istringstream ls(ln); long a, b; if (ls >> a >> b) j.arr().i(ext.count(a) ? ext.at(a) : 0).i(ext.count(b) ? ext.at(b) : 0).end(); }
                 }
                 j.end().k("phases").i((long)lg.names.size());
+                // phase-level observations: positions and compiled constraints of the logged state of each main phase (read back through the
+                // library's own TGLF reader, which C18 validates)
+                j.k("plog").arr();
+                if (idx <= phaseCases) {
+                    for (size_t i = 0; i < lg.names.size() && i < lg.contents.size(); i++) {
+                        if (!holaMainPhase(lg.names[i])) continue;
+                        std::string txt = lg.contents[i];
+                        Graph_SP H = buildGraphFromTglf(txt);
+                        ColaGraphRep &hc = H->updateColaGraphRep();
+                        j.obj().k("name").s(lg.names[i].substr(3, lg.names[i].size() - 8)).k("nodes").arr();
+                        std::map<id_type, int> pix; int q = 0;
+                        for (auto &kv : H->getNodeLookup()) { Avoid::Point c = kv.second->getCentre(); dimensions d = kv.second->getDimensions();
+                                                              j.arr().i(lat(c.x)).i(lat(c.y)).i(lat(d.first)).i(lat(d.second)).end(); pix[kv.first] = ++q; }
+                        j.end();
+                        vpsc::Variables pv; for (size_t v = 0; v < hc.rs.size(); v++) pv.push_back(new vpsc::Variable((int)v));
+                        for (int dim = 0; dim < 2; dim++) {
+                            vpsc::Constraints cs; vpsc::Rectangles bbs;
+                            H->getSepMatrix().generateSeparationConstraints(dim == 0 ? vpsc::XDIM : vpsc::YDIM, pv, cs, bbs);
+                            j.k(dim == 0 ? "cx" : "cy").arr();
+                            for (auto c : cs) { j.arr().i(pix.at(hc.ix2id.at(c->left->id))).i(pix.at(hc.ix2id.at(c->right->id))).i(lat(c->gap)).b(c->equality).end(); delete c; }
+                            j.end();
+                        }
+                        for (auto v : pv) delete v;
+                        j.end();
+                    }
+                }
+                j.end();
             }
             j.k("pad").i(lat(pad) + 1);
             // after: nodes
